@@ -333,7 +333,7 @@ def run(ctx: Ctx):
         "(p, f, dt, skip) at T = skip + (p+f-1)*dt + 2 (two windows), through "
         "times_series_to_multi_images with a dynamic/constant signature drawn per configuration from 5 "
         "(2-3 tensor types incl. vectors, pseudoscalars, 2-tensors, 1-3 channels, constant-only types, "
-        "types without constants), downsample 1 on a subset (thorough: also 2), spatial side 2 or 4; "
+        "types without constants), downsample 1 on a subset (thorough: also 2), spatial side 2 or 4; fixed configurations with downsample 2 and 3 (sides 4, 8), also batched incl. a batch of one trajectory; "
         "batch_time_series on a subset (thorough: all, 1..3 trajectories); time_series_idxs alone for all "
         "(p, f, dt <= 3, total_steps -1..Tmax). A case is non-trivial when it has >= 2 windows and "
         "p + f >= 3; distinct = distinct (function, signature, T, p, f, dt, skip, downsample, side, trajectories)."
@@ -375,5 +375,13 @@ def run(ctx: Ctx):
     # a few batched configurations without a window
     for T, p, f, dt, s in [(3, 2, 2, 1, 0), (5, 2, 2, 2, 1), (2, 1, 1, 1, 2)]:
         run_windows(ctx, data, geom, jnp, 0, T, p, f, dt, s, 0, 2, 2)
+    # deeper downsampling on fixed configurations (halving the extents `downsample` times: 2^downsample, not a
+    # multiple of it), per trajectory and batched, incl. a batch of exactly one trajectory
+    for T, p, f, dt, s in [(6, 2, 1, 1, 0), (7, 1, 2, 2, 1)]:
+        run_windows(ctx, data, geom, jnp, 1, T, p, f, dt, s, 2, 4, None)
+        run_windows(ctx, data, geom, jnp, 2 % len(SIGNATURES), T, p, f, dt, s, 3, 8, None)
+        run_windows(ctx, data, geom, jnp, 0, T, p, f, dt, s, 3, 8, 2)
+        run_windows(ctx, data, geom, jnp, 1, T, p, f, dt, s, 2, 8, 1)
+        run_windows(ctx, data, geom, jnp, 1, T, p, f, dt, s, 1, 2, 1)
     ctx.exhaustive = True
     ctx.notes["exhaustive_scope"] = f"all (T<={Tmax}, p,f,dt<=3, skip<=2) at downsample 0; subsets for downsample/batches"
